@@ -177,6 +177,18 @@ INFO = {
  "C13-i": ("rcu_defer_barrier(): queue heads sampled after synchronize_rcu() instead of before", "a call queued by another thread while the reclaimer's grace period is in flight runs without a grace period of its own"),
  "C15-i": ("bp cleanup_thread() no longer clears the slot's counter", "a slot pruned in a fork child (or left by a thread exiting inside a section) while its owner was in a section, then reused"),
  "C16-i": ("bp after_fork handlers restore the signal mask from the shared save slot after dropping rcu_gp_lock", "two threads with different signal masks forking concurrently (bp handlers): one restores the other's mask"),
+ "C01-j": ("urcu-bp read_lock: outermost and nested branches folded into one store (every nested lock re-takes the phase snapshot)", "bp flavor; outer section begun before synchronize_rcu(), nested lock taken after the parity flip, outer section still open"),
+ "C04-j": ("_call_rcu_data_free(): emptiness test, splice of leftovers and list removal no longer share one call_rcu_mutex section", "rcu_barrier() taking the mutex between the splice and cds_list_del() of a helper being freed: its marker is never run"),
+ "C06-j": ("_cds_lfht_add(): the add_unique duplicate scan gated on the 'first node of an identical-hash run' test used for chain accounting", "key whose hash equals its bucket index (hash < table size): the bucket node has the same reverse hash, so the scan never runs"),
+ "C08-j": ("_cds_lfht_replace(): new_node->next = old_next hoisted out of the cmpxchg retry loop", "lookup, then an add landing directly behind that node, then replace through the earlier iterator (single thread)"),
+ "C09-j": ("partition_resize_helper(): on EAGAIN the fallback covers only the failed partition, not all leftovers", "partitioned resize (>= 16384 buckets, > 1 cpu) with pthread_create failing for a helper that is not the last one"),
+ "C11-j": ("_cds_lfs_pop_all_blocking() no longer takes the pop mutex (empty fast path + unserialised pop_all)", "mutex-protected lfstack API, nodes re-pushed at once, a popper delayed between its loads and its cmpxchg while pop_all + re-push happen"),
+ "C12-j": ("lfq dequeue: enqueue_dummy() returns the appended dummy and the dequeuer uses it as next instead of re-reading head->next", "head is the last real node, an enqueue lands between the dequeuer's NULL read and the dummy append: the new node is skipped"),
+ "C14-j": ("start_poll_synchronize_rcu(): grace_period_id read before taking the poll mutex", "caller preempted between the load and the lock while an earlier polled grace period completes; a reader that entered after that grace period's scan"),
+ "C17-j": ("wfcq non-blocking dequeue: WOULDBLOCK path restores head->node.next only if tail->p == node (never true there)", "exactly one node, enqueuer suspended between tail xchg and link, a non-blocking dequeue in that window, enqueuer resumes: every later non-blocking call returns WOULDBLOCK with nothing in progress"),
+ "C18-j": ("cds_list_replace_rcu() ends with CDS_INIT_LIST_HEAD(old)", "a reader standing on the replaced node when it is replaced loops on it forever"),
+ "C19-j": ("urcu-bp: the TLS reader pointer is cleared by urcu_bp_unregister() after the signal mask is restored instead of by remove_thread()", "bp thread exiting, a signal delivered at the unblock whose handler uses the read side: it uses the freed, unlinked registry slot"),
+ "C20-j": ("uatomic_sub_return_mo(): operand negated in its own C type before widening", "8-byte target with an operand typed exactly unsigned int: result and memory off by 2^32"),
 }
 rows = []
 for d in sorted(glob.glob(os.path.join(V, "seeded", "C??-?"))):
